@@ -4,6 +4,8 @@ mod est;
 mod obs;
 mod out;
 mod props_mom;
+mod props_quant;
+mod props_hist;
 mod rng;
 
 use out::Out;
@@ -29,6 +31,12 @@ fn main() {
         "C03" => props_mom::c03(&mut out, tier, &mut rng),
         "C04" => props_mom::c04(&mut out, tier, &mut rng),
         "C10" => props_mom::c10(&mut out, tier, &mut rng),
+        "C05" => props_quant::c05(&mut out, tier, &mut rng),
+        "C07" => props_quant::c07(&mut out, tier, &mut rng),
+        "C06" => props_hist::c06(&mut out, tier, &mut rng),
+        "C12" => props_hist::c12(&mut out, tier, &mut rng),
+        "C13" => props_hist::c13(&mut out, tier, &mut rng),
+        "C15" => props_quant::c15(&mut out, tier, &mut rng),
         _ => { eprintln!("unknown property {}", prop); std::process::exit(2); }
     }
     out.finish();
